@@ -864,13 +864,18 @@ resumed:
 					// which does popTryFrame()
 					vm.popTryFrame()
 				}
-				if len(vm.tryStack) > int(g.tryStackLen) {
+				for len(vm.tryStack) > int(g.tryStackLen) {
 					// A throw completion from a finally block replaces the pending return completion. The generator
 					// still has enclosing try statements of its own: the exception is theirs to handle (their
 					// catch / finally blocks must run) and execution continues as an ordinary resumption.
 					g.returning = g.pendingReturn()
 					if ex = vm.handleThrow(ex); ex == nil {
 						goto resumed
+					}
+					if len(vm.tryStack) > int(g.tryStackLen) {
+						// handleThrow() stopped at an enclosing finally block that an earlier return() had entered
+						// (another marker frame of this generator): its return completion is replaced as well
+						vm.popTryFrame()
 					}
 				}
 				return
